@@ -27,6 +27,7 @@ type RootSpec struct {
 	V1      bool // version 1 certificate: no extensions at all (old-style root)
 	NoKU    bool // no KeyUsage extension
 	UTF8    bool // subject CN as UTF8String instead of PrintableString
+	Twin    int  // > 0: reuse the key of the (Twin-1 mod i)-th earlier root under this root's different name (a re-named CA)
 }
 
 type CASpec struct {
@@ -34,12 +35,15 @@ type CASpec struct {
 	Cross    int // < 0: none; else index (mod) of a second parent: cross-signed sibling (same subject + key)
 	Kind     string
 	Role     string // "ca" | "pre" (CA with the CT precert-signing EKU) | "nonca" (end entity that signs anyway)
+	V1       bool   // nonca only: a version 1 certificate (no extensions, hence no CA assertion); never trusted
+	NoBC     bool   // nonca only: no BasicConstraints at all (otherwise BasicConstraints with cA FALSE)
 	AKI      bool
 	NoKU     bool
 	SigAlg   int
 	UTF8     bool
 	Trusted  bool // the certificate under Parent is in the trusted pool
 	TrustedX bool // the cross-signed sibling is in the trusted pool
+	Twin     int  // > 0: reuse the key of the (Twin-1 mod n)-th earlier node under this node's different name
 }
 
 type LeafSpec struct {
@@ -49,6 +53,7 @@ type LeafSpec struct {
 	CA        bool   // the leaf carries BasicConstraints CA (a sub-CA certificate being logged)
 	Poison    string // "" | "ok" | "noncrit" | "int" | "empty" | "octet" | "trail" | "noncrit-int"
 	PoisonPos int
+	ExtRot    int // rotation of the leaf's other extensions
 	HasEKU    bool
 	EKUs      []string
 	Exts      []int // indices into extraOIDs
@@ -105,6 +110,7 @@ type node struct {
 	key     *keys.Key
 	subject pki.Name
 	role    string // "root" | "ca" | "pre" | "nonca"
+	v1      bool
 	depth   int
 	certs   []*pki.Cert // variant 0 (and 1 when cross-signed)
 	parents []int       // node index of each variant's issuer (-1: self-signed)
@@ -162,7 +168,7 @@ var extraOIDs = [][]int{
 var rejectOIDChoices = []string{
 	"1.3.6.1.4.1.55555.1", "1.3.6.1.4.1.55555.10", "1.3.6.1.4.1.55555.1.1", "1.3.6.1.4.1.55556.1",
 	"1.3.6.1.4.1.55555", "1.3.6.1.4.1.55555.2", "1.3.6.1.4.1.55555.11",
-	"2.5.29.17", "2.5.29.37", "2.5.29.19", "1.3.6.1.4.1.11129.2.4.3", "2.5.29.35",
+	"2.5.29.17", "2.5.29.37", "2.5.29.19", "2.5.29.15", "2.5.29.14", "1.3.6.1.4.1.11129.2.4.3", "2.5.29.35",
 }
 
 func dotted(oid []int) string {
@@ -316,8 +322,15 @@ func build(c *Case) *world {
 
 	// roots
 	for i, r := range c.Roots {
-		k := w.allocKey(r.Kind)
-		n := &node{label: fmt.Sprintf("root%d", i), key: k, subject: cn(fmt.Sprintf("C02 Root %d", i), r.UTF8), role: "root"}
+		var k *keys.Key
+		// a version 1 certificate cannot carry an SKI, so sharing its key with a certificate that does
+		// would break the "key identifiers consistent per key" precondition: no twins with v1 on either side
+		if r.Twin > 0 && i > 0 && !r.V1 && !w.nodes[mod(r.Twin-1, i)].v1 {
+			k = w.nodes[mod(r.Twin-1, i)].key
+		} else {
+			k = w.allocKey(r.Kind)
+		}
+		n := &node{label: fmt.Sprintf("root%d", i), key: k, subject: cn(fmt.Sprintf("C02 Root %d", i), r.UTF8), role: "root", v1: r.V1}
 		t := pki.Template{Serial: next(), Subject: n.subject, NotBefore: nb, NotAfter: na, Key: k}
 		if r.V1 {
 			t.Version = 1
@@ -349,9 +362,15 @@ func build(c *Case) *world {
 			}
 		}
 		p0 := elig[mod(s.Parent, len(elig))]
-		k := w.allocKey(s.Kind)
+		var k *keys.Key
+		isV1 := s.Role == "nonca" && s.V1
+		if s.Twin > 0 && !isV1 && !w.nodes[mod(s.Twin-1, len(w.nodes))].v1 {
+			k = w.nodes[mod(s.Twin-1, len(w.nodes))].key
+		} else {
+			k = w.allocKey(s.Kind)
+		}
 		idx := len(w.nodes)
-		n := &node{label: fmt.Sprintf("ca%d", j), key: k, subject: cn(fmt.Sprintf("C02 CA %d", j), s.UTF8), role: s.Role, depth: w.nodes[p0].depth + 1}
+		n := &node{label: fmt.Sprintf("ca%d", j), key: k, subject: cn(fmt.Sprintf("C02 CA %d", j), s.UTF8), role: s.Role, v1: isV1, depth: w.nodes[p0].depth + 1}
 		mk := func(parent int, variant int) *pki.Cert {
 			pn := w.nodes[parent]
 			pc := pn.certs[0]
@@ -359,9 +378,14 @@ func build(c *Case) *world {
 			var ekus []string
 			switch s.Role {
 			case "nonca":
-				t.Exts = []pki.Ext{pki.KeyUsage(pki.KUDigitalSignature)}
 				if !s.NoKU {
+					t.Exts = append(t.Exts, pki.KeyUsage(pki.KUDigitalSignature))
+				}
+				if !s.NoBC {
 					t.Exts = append(t.Exts, pki.BasicConstraints(false, -1, true))
+				}
+				if s.V1 {
+					t.Version = 1
 				}
 			default:
 				t.Exts = []pki.Ext{pki.BasicConstraints(true, -1, true)}
@@ -379,19 +403,22 @@ func build(c *Case) *world {
 			if s.AKI {
 				t.Exts = append(t.Exts, pki.AKI(pki.KeyID(pn.key)))
 			}
+			if t.Version == 1 {
+				t.Exts = nil
+			}
 			algs := pki.SigAlgsFor(pn.key)
 			t.SigAlg = algs[mod(s.SigAlg+variant, len(algs))]
 			cert := issueMemo(pc, t, fmt.Sprintf("%s.%d", n.label, variant))
 			w.register(cert, &meta{caBit: s.Role != "nonca", ekus: ekus, node: idx, variant: variant})
 			return cert
 		}
-		n.certs, n.parents, n.trusted = []*pki.Cert{mk(p0, 0)}, []int{p0}, []bool{s.Trusted}
+		n.certs, n.parents, n.trusted = []*pki.Cert{mk(p0, 0)}, []int{p0}, []bool{s.Trusted && !(s.Role == "nonca" && s.V1)}
 		if s.Cross >= 0 {
 			p1 := elig[mod(s.Cross, len(elig))]
 			if p1 != p0 {
 				n.certs = append(n.certs, mk(p1, 1))
 				n.parents = append(n.parents, p1)
-				n.trusted = append(n.trusted, s.TrustedX)
+				n.trusted = append(n.trusted, s.TrustedX && !(s.Role == "nonca" && s.V1))
 				if d := w.nodes[p1].depth + 1; d > n.depth {
 					n.depth = d
 				}
@@ -459,6 +486,9 @@ func build(c *Case) *world {
 				exts = append(exts, pki.Ext{OID: extraOIDs[x], Value: derx.Octets([]byte{byte(x)})})
 			}
 		}
+		if r := mod(ls.ExtRot, len(exts)); r > 0 {
+			exts = append(append([]pki.Ext{}, exts[r:]...), exts[:r]...)
+		}
 		if pe, ok := poisonExt(ls.Poison); ok {
 			p := mod(ls.PoisonPos, len(exts)+1)
 			exts = append(append(append([]pki.Ext{}, exts[:p]...), pe), exts[p:]...)
@@ -472,7 +502,11 @@ func build(c *Case) *world {
 		if ls.HasEKU {
 			ekus = ls.EKUs
 		}
-		w.register(leaf, &meta{caBit: ls.CA, ekus: ekus, poison: ls.Poison, node: -1})
+		poison := ls.Poison
+		if _, ok := poisonExt(poison); !ok {
+			poison = ""
+		}
+		w.register(leaf, &meta{caBit: ls.CA, ekus: ekus, poison: poison, node: -1})
 		w.path = append(w.path, leaf)
 	}
 	for cur >= 0 {
@@ -623,6 +657,37 @@ func (w *world) perturb(p Perturb) string {
 		out[i] = elem{c: s, der: s.DER}
 		w.chain = out
 		return "sibling"
+	case "twin":
+		// the same key under a different subject name (a re-named CA): position i, else the first that has one
+		find := func(c *pki.Cert) *pki.Cert {
+			m := w.metas[c]
+			if m == nil || m.node < 0 {
+				return nil
+			}
+			for idx, nd := range w.nodes {
+				if idx != m.node && nd.key == w.nodes[m.node].key {
+					return nd.certs[0]
+				}
+			}
+			return nil
+		}
+		i := mod(p.I, n)
+		tw := find(ch[i].c)
+		if tw == nil {
+			for k := range ch {
+				if tw = find(ch[k].c); tw != nil {
+					i = k
+					break
+				}
+			}
+		}
+		if tw == nil {
+			return "noop:twin"
+		}
+		out := append([]elem{}, ch...)
+		out[i] = elem{c: tw, der: tw.DER}
+		w.chain = out
+		return "twin"
 	case "leafroot":
 		r := w.nodes[mod(p.K, len(w.c.Roots))].certs[0]
 		w.chain = []elem{{c: r, der: r.DER}}
